@@ -13,6 +13,7 @@ mod object;
 mod nav;
 mod compare;
 mod c03;
+mod deep;
 mod canon;
 mod c19;
 mod serde_typed;
